@@ -88,8 +88,94 @@ def replay(ob):
             bad = check_dft(cfg)
         elif ob['unit'].startswith('wavelet-adjoint/'):
             bad = check_wavelet(cfg)
+        elif ob['unit'].startswith('ft-definition/'):
+            cfg = ob.get('model') or (ob.get('replay') or {}).get('case')
+            bad = ft_definition_check(cfg)[0]
         else:
             return {'reproduced': False, 'detail': 'no native concretisation for this obligation kind'}
     except Exception as e:
         return {'reproduced': False, 'detail': 'native evaluation raised %s: %s (not counted as a reproduction)' % (type(e).__name__, e)}
     return {'reproduced': bool(bad), 'detail': bad or 'holds natively on the pool', 'input': cfg}
+
+
+# ---------------------------------------------------------------------------------------------------------------------------------
+# bounded stand-in (never counted as proved): the continuous FourierTransform against its defining quadrature sum on every basis vector
+# (the operator is linear, so agreement on a basis is agreement on all inputs of that shape, up to rounding)
+
+def ft_definition_cases(tier='quick'):
+    import itertools
+    shapes = [(n,) for n in (2, 3, 4, 5, 6)] + [s for s in itertools.product((2, 3, 4), repeat=2)] + [(2, 3, 2), (3, 3, 2)]
+    if tier == 'thorough':
+        shapes += [s for s in itertools.product((2, 3, 4, 5), repeat=2) if s not in shapes] + [s for s in itertools.product((2, 3), repeat=3) if s not in shapes] + [(7,), (8,), (4, 4, 4)]
+    for shape in shapes:
+        nd = len(shape)
+        subsets = [ax for r in range(1, nd + 1) for ax in itertools.combinations(range(nd), r)]
+        for axes in subsets:
+            for shifts in itertools.product((True, False), repeat=len(axes)):
+                for sign in ('-', '+'):
+                    for dtype, hc in (('complex128', False), ('float64', True), ('float64', False)):
+                        if hc and (sign == '+' or not shifts[-1]):
+                            continue        # documented restrictions of half-complex transforms (sign '-', shift in the halved axis)
+                        yield dict(shape=list(shape), axes=list(axes), shifts=list(shifts), sign=sign, dtype=dtype, halfcomplex=hc)
+
+
+def ft_definition_check(cfg, impls=('numpy', 'pyfftw')):
+    """returns (None | description of the disagreement, number of basis vectors evaluated)"""
+    odl, np = _odl()
+    from odl.trafos.fourier import FourierTransform
+    shape, axes, shifts, sign, hc = tuple(cfg['shape']), tuple(cfg['axes']), tuple(cfg['shifts']), cfg['sign'], cfg['halfcomplex']
+    nd = len(shape)
+    mins = [-1.0, 0.5, -2.5][:nd]
+    maxs = [2.0, 3.5, -1.0][:nd]
+    sp = odl.uniform_discr(mins, maxs, shape, dtype=cfg['dtype'])
+    s = sp.cell_sides
+    x0 = sp.grid.min_pt
+    sg = -1.0 if sign == '-' else 1.0
+    # expected reciprocal coordinates and the 1d factor matrices M_a[j, k]
+    mats = []
+    for i, a in enumerate(axes):
+        n = shape[a]
+        xi0 = -np.pi / s[a] if shifts[i] else -(np.pi / s[a]) * (1.0 - 1.0 / n)
+        nout = n // 2 + 1 if (hc and a == axes[-1]) else n
+        xi = xi0 + np.arange(nout) * 2 * np.pi / (n * s[a])
+        xk = x0[a] + np.arange(n) * s[a]
+        mats.append((a, xi, s[a] / np.sqrt(2 * np.pi) * np.sinc(xi * s[a] / (2 * np.pi))[:, None] * np.exp(sg * 1j * xi[:, None] * xk[None, :])))
+    evals = 0
+    results = {}
+    for impl in impls:
+        if impl == 'pyfftw' and not odl.trafos.PYFFTW_AVAILABLE:
+            continue
+        try:
+            ft = FourierTransform(sp, axes=axes, shift=shifts if len(shifts) > 1 else shifts[0], sign=sign, halfcomplex=hc, impl=impl)
+        except Exception as e:
+            return 'constructor raised %s: %s' % (type(e).__name__, e), evals
+        for a, xi, _ in mats:
+            got = ft.range.grid.coord_vectors[a]
+            if got.shape != xi.shape or not np.allclose(got, xi, rtol=1e-12, atol=1e-12):
+                return 'reciprocal grid axis %d: %r, expected %r' % (a, got, xi), evals
+        for idx in np.ndindex(*shape):
+            e = np.zeros(shape, dtype=cfg['dtype'])
+            e[idx] = 1.0
+            x = sp.element(e)
+            y = ft(x).asarray()
+            evals += 1
+            exp = e.astype('complex128')
+            for a, xi, M in mats:
+                exp = np.moveaxis(np.tensordot(M, exp, axes=(1, a)), 0, a)
+            if y.shape != exp.shape or not np.allclose(y, exp, rtol=1e-9, atol=1e-11):
+                return '%s: FourierTransform(e_%s) differs from the defining sum by %.3g (max abs)' % (impl, idx, float(np.max(np.abs(y - exp))) if y.shape == exp.shape else float('nan')), evals
+            try:
+                back = ft.inverse(ft(x)).asarray()
+            except Exception as ex:
+                return '%s: inverse(forward(e_%s)) raises %s: %s' % (impl, idx, type(ex).__name__, ex), evals
+            if not np.allclose(back, e, rtol=1e-9, atol=1e-11):
+                return '%s: inverse(forward(e_%s)) differs from e by %.3g' % (impl, idx, float(np.max(np.abs(back - e)))), evals
+            out = ft.range.element()
+            ft(x, out=out)
+            if not np.allclose(out.asarray(), y, rtol=1e-12, atol=1e-13):
+                return '%s: in-place and out-of-place evaluation differ on e_%s' % (impl, idx), evals
+            results.setdefault(idx, []).append(y)
+    for idx, ys in results.items():
+        if len(ys) == 2 and not np.allclose(ys[0], ys[1], rtol=1e-9, atol=1e-11):
+            return 'numpy and pyfftw back-ends differ on e_%s' % (idx,), evals
+    return None, evals
